@@ -382,6 +382,41 @@ func randHistoryLarge(r *rand.Rand) []EAct {
 	return hist
 }
 
+// randHistoryShrink: a dense graph on 12..22 vertices whose hub loses most of its neighbours edge by edge (storage that was sized for a
+// large neighbourhood now holds a small one), then vertices below and above the survivors are removed and the graph grows again.
+func randHistoryShrink(r *rand.Rand) []EAct {
+	n := 12 + r.Intn(11)
+	ranks := []int{}
+	p := []float64{0.75, 0.9, 1}[r.Intn(3)]
+	for e := 0; e < n*(n-1)/2; e++ {
+		if r.Float64() < p {
+			ranks = append(ranks, e)
+		}
+	}
+	hist := []EAct{{Op: "Create", H: 1, N: n, E: ranks}}
+	hub := r.Intn(n)
+	for _, x := range r.Perm(n) {
+		if x != hub && r.Intn(8) != 0 {
+			hist = append(hist, EAct{Op: "RemoveEdge", H: 1, I: hub, J: x})
+		}
+	}
+	for k := 0; k < 10; k++ {
+		switch r.Intn(6) {
+		case 0, 1, 2:
+			hist = append(hist, EAct{Op: "RemoveVertex", H: 1, Vx: r.Intn(n)})
+			n--
+		case 3:
+			hist = append(hist, EAct{Op: "AddEdge", H: 1, I: r.Intn(n), J: r.Intn(n)})
+		case 4:
+			hist = append(hist, EAct{Op: "AddVertex", H: 1, Nb: r.Perm(n)[:r.Intn(4)]})
+			n++
+		default:
+			hist = append(hist, EAct{Op: "Copy", H: 1, H2: 2})
+		}
+	}
+	return hist
+}
+
 func driveC05(c *Ctx) {
 	set := tr.NewSet(c.Out, "trace", c.Shards)
 	meta := map[string]interface{}{}
@@ -447,6 +482,18 @@ func driveC05(c *Ctx) {
 			runHistoryB(w, rep, hist)
 		}
 	}
+	ns := 10
+	if c.Thorough() {
+		ns = 100
+	}
+	for i := 0; i < ns; i++ {
+		hist := randHistoryShrink(r)
+		for _, rep := range []string{"dense", "sparse"} {
+			w := set.Begin(histKey(rep, hist), tr.E{"rep": rep, "input": map[string]interface{}{"rep": rep, "hist": hist}})
+			runHistoryB(w, rep, hist)
+		}
+	}
+	meta["B_shrink_histories"] = ns
 	meta["B_large_histories"] = nl
 	meta["B_histories"] = nh
 	meta["B_nontrivial_histories"] = nontrivial
